@@ -3,7 +3,9 @@
 //!   implrun run <ID> --cases FILE --impl FILE        (re-run given case lines, e.g. the corpus)
 mod common;
 mod probe;
+mod astwalk;
 mod c06;
+mod c09;
 mod c10;
 mod c11;
 mod c13;
@@ -22,6 +24,7 @@ fn gen_all(id: &str, seed: u64, n: usize, thorough: bool) -> Vec<String> {
         "C13" => c13::gen_cases(seed, n, thorough),
         "C10" => c10::gen_cases(seed, n, thorough),
         "C15" => c15::gen_cases(seed, n, thorough),
+        "C09" => c09::gen_cases(seed, n, thorough),
         _ => panic!("unknown property {}", id),
     }
 }
@@ -35,6 +38,7 @@ fn run_line(id: &str, line: &str) -> String {
         "C13" => c13::run_line(line),
         "C10" => c10::run_line(line),
         "C15" => c15::run_line(line),
+        "C09" => c09::run_line(line),
         _ => "UNKNOWN-PROPERTY".to_string(),
     });
     match r {
@@ -48,6 +52,10 @@ fn main() {
     if args.len() < 3 {
         eprintln!("usage: implrun gen|run <ID> [--seed S] [--n N] [--thorough] --cases F --impl F");
         std::process::exit(2);
+    }
+    if args[1] == "ast" {
+        println!("{}", c09::dump(&args[2]));
+        return;
     }
     if args[1] == "probe" {
         probe::main(&args[2..]);
